@@ -613,8 +613,11 @@ def special_inputs():
 
 
 # ---------------------------------------------------------------- defects for CHECK
-def plant_defect(rnd, env, m, depth=0):
-    """returns True if a serialisation-relevant defect was planted somewhere in m"""
+def plant_defect(rnd, env, m, depth=0, taken=None):
+    """returns True if a serialisation-relevant defect was planted somewhere in m.
+    taken: positions already altered by earlier calls (never altered twice, so an earlier verdict stays true)"""
+    if taken is None:
+        taken = set()
     desc = env.msgs[m.d]
     cands = []
     for i, (f, s) in enumerate(zip(desc.fields, m.slots)):
@@ -637,9 +640,13 @@ def plant_defect(rnd, env, m, depth=0):
             cands.append(('ubytes', g))
         if f is not None and f.type == 'MESSAGE' and cell[1] is not None:
             cands.append(('usub', g))
+    cands = [(k, i) for (k, i) in cands
+             if k in ('sub', 'usub') or (id(m), k in ('ubytes',), i) not in taken]
     if not cands:
         return False
     kind, i = rnd.choice(cands)
+    if kind not in ('sub', 'usub'):
+        taken.add((id(m), kind in ('ubytes',), i))
     if kind == 'bytes':
         f = desc.fields[i]
         has = m.slots[i][1]
@@ -654,9 +661,9 @@ def plant_defect(rnd, env, m, depth=0):
         m.slots[i] = ('S', 0, ('G', None))
         return True
     if kind == 'sub':
-        return plant_defect(rnd, env, m.slots[i][2][1], depth + 1)
+        return plant_defect(rnd, env, m.slots[i][2][1], depth + 1, taken)
     if kind == 'usub':
-        return plant_defect(rnd, env, m.unions[i][1][1], depth + 1)
+        return plant_defect(rnd, env, m.unions[i][1][1], depth + 1, taken)
     if kind == 'ubytes':
         m.unions[i] = (m.unions[i][0], ('B', rnd.randint(1, 9), 'N'))
         return True
@@ -671,7 +678,7 @@ def plant_defect(rnd, env, m, depth=0):
     elif f.type == 'MESSAGE':
         if rnd.random() < 0.5 and cells[j][1] is not None:
             m.slots[i] = ('R', n, cells)
-            return plant_defect(rnd, env, cells[j][1], depth + 1)
+            return plant_defect(rnd, env, cells[j][1], depth + 1, taken)
         cells[j] = ('G', None)
     else:
         cells[j] = ('B', rnd.randint(1, 9), 'N')
